@@ -278,5 +278,37 @@ RCU_ASSUME = ["seq_cst atomics are interleaved cells; the plain fields deleted /
 
 
 def register(PROPS, COMPONENTS):
-    COMPONENTS["rcu"] = dict(client="rcu", driver="rcu", tap=True, directed_runs=4, quick_runs=1600, thorough_runs=40000,
-                             oracle=oracle_rcu)
+    COMPONENTS["rcu"] = dict(client="rcu", driver="rcu", tap=True, directed_runs=4, quick_runs=1600, thorough_runs=12000,
+                             oracle=oracle_rcu,
+                             cov_headers=["gmlc/libguarded/rcu_list.hpp", "gmlc/libguarded/rcu_guarded.hpp"],
+                             # detail::deallocator::operator() (the unique_ptr deleter of allocate_unique) runs only if the
+                             # unique_ptr dies while it owns the node; push_*/emplace_* always release() it and nothing in
+                             # between can throw: dead code.  The catch block of allocate_unique cannot run for T = int
+                             # (it is exercised for the traced element type: model edge `pCons/throw`).
+                             cov_allow=[r"void operator\(\)\(pointer p\)", r"allocator_traits::destroy\(alloc, p\);",
+                                        r"allocator_traits::deallocate\(alloc, p, 1\);", r"^\s*catch \(\.\.\.\) \{", r"^\s*throw;",
+                                        r"^\s*\}$"],
+                             # declared but not defined in the header (using them does not link): clear, insert x4,
+                             # emplace(pos), cbegin, cend; operator-- reads node::prev, which does not exist (does not compile)
+                             inst_allow=[r"^rcu_list::clear$", r"^rcu_list::insert$", r"^rcu_list::emplace$", r"^rcu_list::cbegin$",
+                                         r"^rcu_list::cend$", r"::operator--$"])
+    PROPS["C13"] = dict(
+        lean_files=["ConcVerif/Props/C13.lean"], components=["rcu"], stage="A",
+        level_text="Lean 4 theorems (kernel-checked; unbounded threads, client programs, interleavings, spurious CAS failures and "
+                   "throwing element constructors) over an executable model of rcu_list.hpp + rcu_guarded.hpp at the level of its "
+                   "atomics, the write mutex, the plain fields deleted / zombie_node / data and the allocator calls: the allocation "
+                   "ledger is ghost state the model never consults, and a 4-layer inductive invariant (control, log of records, list "
+                   "structure, node ledger; ~5000 lines) shows that every allocate finds a new block, every construct an allocated "
+                   "one, every destroy a constructed one (never a null / phantom / already destroyed one), every deallocate a "
+                   "destroyed one (or a never-constructed one when the element constructor threw), each at most once and in this "
+                   "order; after the list destructor every node and record ever allocated is freed; a handle release destroys a "
+                   "node only if it was erased. The model is tied to the source on every run: the unmodified headers run with a "
+                   "tracing, quarantining allocator (rcu_list's Alloc parameter), a traced non-trivially-destructible element type "
+                   "and int, the plain-access tap over the whole allocation arena, under a deterministic scheduler; every "
+                   "primitive-level trace must be accepted by the model's step function with all model edges covered, and an "
+                   "executable copy of the invariant is evaluated on every state of every trace.",
+        level_note="Trusted: Lean kernel (+propext, Classical.choice, Quot.sound), seq_cst atomics and mutex as interleaved cells, "
+                   "shim + tap + tracing allocator + scheduler + driver glue. The defect D2 (destroy/deallocate of a null node, fixed "
+                   "in /repo by b6a7771) is what the model rejects as `des null`.",
+        trusted_base=RCU_TRUST, assumptions=RCU_ASSUME, partial=[],
+    )
